@@ -1009,7 +1009,9 @@ doConvert(
             double                  thePrecision)
 {
     return executionContext.getXObjectFactory().createNumber(
-            theValues[XalanDOMString::size_type(thePrecision <= theSize ? thePrecision : theSize)]);
+            // thePrecision is greater than zero here; anything that is not below the
+            // size of the table (including NaN) selects the last, most precise entry.
+            theValues[thePrecision < theSize ? XalanDOMString::size_type(thePrecision) : theSize - 1]);
 }
 
 
